@@ -504,6 +504,8 @@ def compare(cues, doc, acc, case, geometry=True):
     check_share(cues, obs, exps, acc, case)
   if outcome == "agrees":
     outcome = "agrees" + ("-styled" if styled else "") + ("-timed" if timed else "")
+  if geometry and any(e is not None and not e["clean"] for e in exps):
+    outcome += "+geometry-differs"
   return outcome + ("+time-not-exact" if tfloat else "")
 
 
